@@ -21,6 +21,9 @@ deriving DecidableEq, Repr
 /-- gates of the basis-state fragment -/
 inductive G where
   | x | y | z | s | cx | ccx | swap
+  /-- `Kron<X, CX>` on `[a, b, c]` (X on a, CX b→c) and `Kron<CX, X>` on `[a, b, c]` (CX a→b, X on c): products of
+  factors of DIFFERENT width -/
+  | kxcx | kcxx
 deriving DecidableEq, Repr
 
 inductive Op where
@@ -82,6 +85,8 @@ def applyG : G → List Nat → List Bool → Option (List Bool)
   | .cx, [a, b], qs => some (if qs.getD a false then flipAt qs b else qs)
   | .ccx, [a, b, c], qs => some (if qs.getD a false && qs.getD b false then flipAt qs c else qs)
   | .swap, [a, b], qs => some ((qs.set a (qs.getD b false)).set b (qs.getD a false))
+  | .kxcx, [a, b, c], qs => some (let q1 := flipAt qs a; if q1.getD b false then flipAt q1 c else q1)
+  | .kcxx, [a, b, c], qs => some (let q1 := (if qs.getD a false then flipAt qs b else qs); flipAt q1 c)
   | _, _, _ => none
 
 /-! ### one operation on one shot -/
